@@ -383,9 +383,17 @@ class Scenario:
             elif raised is not None and not natural and not case.get("warn_error"):
                 # save() refused or failed on its own (e.g. mode 'o' on a target that is a symlink to a directory store:
                 # shutil.rmtree refuses symlinks).  The statement does not promise that a save succeeds, it says what
-                # holds after one that "fails for any reason": judged as a failure below.
+                # holds after one that "fails for any reason": a save that refuses its target before writing anything is
+                # judged as a failure below ...
+                if faults.count > 0:
+                    # ... but not after it has started writing: every graph and target here is one that save() is
+                    # documented to handle (C01), so this is the generator's precondition failing, and letting it pass
+                    # as "a failed save" would make the whole fault enumeration of the case vacuous
+                    raise core.Violation(
+                        "save() without an injected fault raised %s after %d write operation(s): %s" % (type(raised).__name__, faults.count, str(raised)[:200]), kcase
+                    )
                 failed = True
-                ctx.count("save_failed_without_injected_fault:%s:%s/%s/%s" % (type(raised).__name__, case["store"], case["pre"], case["mode"]))
+                ctx.count("save_refused_up_front:%s:%s/%s/%s" % (type(raised).__name__, case["store"], case["pre"], case["mode"]))
             elif natural and raised is None and not case.get("warn_error"):
                 raise core.Violation("saving a graph with an unserialisable leaf did not raise", kcase)
 
